@@ -400,7 +400,15 @@ class SupervisedTimeSeriesForest(ForestClassifier, BaseClassifier):
             axis=1,
         )
 
-        return estimator.predict_proba(transformed_x)
+        proba = estimator.predict_proba(transformed_x)
+        if proba.shape[1] != self.n_classes:
+            # the bag this estimator was fitted on did not contain every class:
+            # put its columns at the positions of its classes in `classes_`
+            full = np.zeros((n_instances, self.n_classes))
+            columns = np.searchsorted(self.classes_, estimator.classes_)
+            full[:, columns] = proba
+            proba = full
+        return proba
 
 
 def fisher_score(X, y, classes=None, class_counts=None):
